@@ -23,7 +23,7 @@ meta["seeded_id"] = sid
 meta["checks_run"] = checks.split()
 m = re.search(r"CAUGHT BY: (.*)", res)
 meta["caught_by"] = m.group(1) if m else None
-meta["tests_pass_with_change"] = "repo tests on mutant: ." in res and "FAILS the existing" not in res
+meta["tests_pass_with_change"] = "repo tests on mutant: PASS" in res
 meta["demo_fails_with_change"] = "demo on mutant: exit 1" in res
 meta["demo_passes_without"] = "demo on /repo : exit 0" in res
 meta["what_i_ran"] = "tools/try_mutant.py --demo demo.py patch.diff " + checks + " (scratch copy of /repo with the patch applied, repo test suite, demo on both trees, quick tier of the checks with VERIF_REPO pointing at the copy)"
